@@ -754,3 +754,155 @@ def stress_shaders(rng):
                              "body": [{"k": "access", "g": "block%d" % ((i * 5 + q) % 14), "how": "load"} for q in range(3)]})
     out.append(S)
     return out
+
+
+# ------------------------------------------------------------------ C16 source strings
+CLASS_CHARS = {"quote": '"', "backslash": "\\", "lbrace": "{", "rbrace": "}", "cr": "\r", "lf": "\n", "tab": "\t", "nul": "\x00", "digit": "7",
+               "ctrl": "\x01", "del": "\x7f", "bmp": "\u00e9", "astral": "\U0001F600", "linesep": "\u2028", "apostrophe": "'", "plain": "x"}
+
+
+def class_string(classes):
+    return "".join(CLASS_CHARS[c] for c in classes)
+
+
+def source_shader(text, rng=None):
+    S = {"structs": [], "globals": [{"name": "u", "space": "uniform", "group": "0", "binding": "0", "ty": VEC4}], "consts": [], "overrides": [], "functions": [],
+         "entries": [frag_entry(body=[{"k": "access", "g": "u", "how": "load"}])], "comment": text}
+    return S
+
+
+# ------------------------------------------------------------------ C15 constants
+def f32_bits(x):
+    import struct
+    return "%08x" % struct.unpack("<I", struct.pack("<f", x))[0]
+
+
+def f64_bits(x):
+    import struct
+    return "%016x" % struct.unpack("<Q", struct.pack("<d", x))[0]
+
+
+def const_table(rng):
+    """(name, decl, expr, expect-canon or None) over declared type x literal suffix x expression shape x value class"""
+    import struct
+    t = []
+    k = [0]
+
+    def add(decl, expr, expect):
+        t.append({"name": "K%d" % k[0], **({"decl": decl} if decl else {}), "expr": expr, **({"expect": expect} if expect else {})})
+        k[0] += 1
+        return "K%d" % (k[0] - 1)
+    # f32: plain, extremes, subnormals, negative zero, values needing 9 significant digits
+    fvals = [0.0, 1.0, -1.0, 0.1, 3.14159, 16777216.0, 16777217.0, 3.4028235e38, -3.4028235e38, 1.17549435e-38, 1e-45, 1.00000005e-20, 8.5070592e37, 123456.79, 0.3333333432674408, 1e15, 9.999999e14, 1e-6, 9.99999e-7]
+    for v in fvals:
+        vv = struct.unpack("<f", struct.pack("<f", v))[0]
+        lit = repr(vv) if "e" not in repr(vv) and "." in repr(vv) else ("%.9g" % vv)
+        if "." not in lit and "e" not in lit:
+            lit += ".0"
+        add("f32", lit, "f32:" + f32_bits(vv))
+        add(None, lit + "f", "f32:" + f32_bits(vv))
+    add("f32", "-0.0", "f32:80000000")
+    add(None, "-0.0f", "f32:80000000")
+    add("f32", "1", "f32:" + f32_bits(1.0))               # abstract int converted to the declared type
+    a = add("f32", "2.5", "f32:" + f32_bits(2.5))
+    add(None, a, "f32:" + f32_bits(2.5))                    # reference to another constant
+    add("f32", "-%s" % a, "f32:" + f32_bits(-2.5))
+    add("f32", "1.5 + 2.0 * 4.0", "f32:" + f32_bits(9.5))
+    add("f32", "1.0 / 3.0", None)
+    # i32 / u32
+    for v in [0, 1, -1, 2147483647, -2147483647, 42]:
+        add("i32", str(v), "i32:%d" % v)
+        add(None, "%di" % v if v >= 0 else "-%di" % -v, "i32:%d" % v)
+    add("i32", "-2147483647 - 1", "i32:-2147483648")
+    add("i32", "1 << 4", "i32:16")
+    add("i32", "7 / 2", "i32:3")
+    add("i32", "-7 % 3", None)
+    for v in [0, 1, 4294967295, 2147483648, 7]:
+        add("u32", str(v), "u32:%d" % v)
+        add(None, "%du" % v, "u32:%d" % v)
+    add("u32", "1u << 31u", "u32:2147483648")
+    add(None, "0xffu", "u32:255")
+    add(None, "0x7fffffff", None)
+    b = add("u32", "12u", "u32:12")
+    add("u32", "%s * 2u + 1u" % b, "u32:25")
+    # bool
+    add("bool", "true", "bool:true")
+    add(None, "false", "bool:false")
+    add("bool", "true && false", "bool:false")
+    add("bool", "1 < 2", "bool:true")
+    # 64-bit
+    add("f64", "1.5lf", "f64:" + f64_bits(1.5))
+    add(None, "2.25lf", "f64:" + f64_bits(2.25))
+    add("f64", "1.7976931348623157e308lf", "f64:" + f64_bits(1.7976931348623157e308))
+    add("i64", "-9li", "i64:-9")
+    add(None, "9223372036854775807li", "i64:9223372036854775807")
+    add("u64", "18446744073709551615lu", "u64:18446744073709551615")
+    add(None, "5lu", "u64:5")
+    # abstract (no suffix, no declared type)
+    add(None, "4", None)
+    add(None, "2.5", None)
+    add(None, "1 + 2", None)
+    # non-scalar constants must not be exported
+    add(None, "vec3<f32>(1.0, 2.0, 3.0)", None)
+    add("vec2<u32>", "vec2<u32>(1u, 2u)", None)
+    add(None, "array<f32, 2>(1.0, 2.0)", None)
+    add(None, "mat2x2<f32>(1.0, 0.0, 0.0, 1.0)", None)
+    return t
+
+
+def const_shaders(rng, n_shaders, per=24):
+    table = const_table(rng)
+    # constants that reference others must keep their dependencies: keep table order and take contiguous windows plus the full table
+    out = []
+    full = {"structs": [], "globals": [], "consts": table, "overrides": [], "functions": [], "entries": [frag_entry()]}
+    out.append(full)
+    for i in range(n_shaders - 1):
+        # random literal-only selection (no cross references) with shuffled order and non-ASCII names
+        lits = [dict(c) for c in table if not any(ch.isalpha() and ch == "K" for ch in c["expr"])]
+        rng.shuffle(lits)
+        sel = lits[:per]
+        for j, c in enumerate(sel):
+            c["name"] = rng.choice(["C", "k_", "\u03ba", "MAX_", "v\u00e9"]) + str(j)
+        out.append({"structs": [], "globals": [], "consts": sel, "overrides": [], "functions": [], "entries": [frag_entry()]})
+    return out
+
+
+# ------------------------------------------------------------------ C12 overrides
+def override_shaders(rng, n):
+    out = []
+    tys = ["bool", "i32", "u32", "f32"]
+    defaults = {"bool": ["true", "false"], "i32": ["-3", "7i"], "u32": ["5u", "0u"], "f32": ["1.5", "0.25f"]}
+    # every single-override shape: 4 types x default? x id in {none, 0, 35}
+    for ty in tys:
+        for has_def in (False, True):
+            for oid in (None, 0, 35):
+                o = {"name": "ov", "ty": ty}
+                if has_def:
+                    o["default"] = defaults[ty][0]
+                if oid is not None:
+                    o["id"] = oid
+                out.append([o])
+    while len(out) < n:
+        k = rng.randint(2, 5)
+        ovs = []
+        ids = rng.sample([0, 1, 7, 35, 1200, 65535], k)
+        for j in range(k):
+            ty = rng.choice(tys)
+            o = {"name": rng.choice(["scale", "count", "flag", "gamma", "\u03b1", "mode"]) + str(j), "ty": ty}
+            if rng.random() < 0.5:
+                o["default"] = rng.choice(defaults[ty])
+            elif rng.random() < 0.25 and ovs and any(p["ty"] == ty and ty != "bool" for p in ovs):
+                dep = [p for p in ovs if p["ty"] == ty][0]
+                o["default"] = dep["name"]     # default depending on another override (no arithmetic: extreme assignments must not overflow)
+            if rng.random() < 0.5:
+                o["id"] = ids[j]
+            ovs.append(o)
+        out.append(ovs)
+    shaders = []
+    for ovs in out:
+        S = {"structs": [{"name": "VIn", "members": [{"name": "p", "ty": VEC4, "io": {"k": "loc", "n": 0}}]}], "globals": [], "consts": [], "overrides": ovs, "functions": [],
+             "entries": [{"name": "vs_main", "stage": "vertex", "params": [{"k": "struct", "name": "v", "ty": "VIn"}], "result": {"k": "builtin", "b": "position"}, "body": [], "wg": []},
+                         {"name": "fs_main", "stage": "fragment", "params": [], "result": {"k": "loc", "n": 0, "ty": VEC4}, "body": [], "wg": []},
+                         {"name": "cs_main", "stage": "compute", "params": [], "body": [], "wg": ["1"]}]}
+        shaders.append(S)
+    return shaders
